@@ -2734,29 +2734,39 @@ CodegenResult codegen_compile(ASTNode *program, Environment *env,
                             }
                         }
 
-                        /* Register under original/aliased name first (needed for internal calls
+                        /* Register under original name first (needed for internal calls
                          * and for compile_function to find the entry by AST name) */
                         bool already = false;
                         uint32_t idx = 0;
                         for (int f = 0; f < cg.fn_count; f++) {
-                            if (strcmp(cg.functions[f].name, use_name) == 0) {
+                            if (strcmp(cg.functions[f].name, fname) == 0) {
                                 already = true;
                                 idx = cg.functions[f].fn_idx;
                                 break;
                             }
                         }
                         if (!already) {
-                            uint32_t name_idx = nvm_add_string(cg.module, use_name,
-                                                               (uint32_t)strlen(use_name));
+                            uint32_t name_idx = nvm_add_string(cg.module, fname,
+                                                               (uint32_t)strlen(fname));
                             NvmFunctionEntry fn = {0};
                             fn.name_idx = name_idx;
                             fn.arity = (uint16_t)mitem->as.function.param_count;
                             idx = nvm_add_function(cg.module, &fn);
                             if (cg.fn_count < MAX_FUNCTIONS) {
-                                cg.functions[cg.fn_count].name = (char *)use_name;
+                                cg.functions[cg.fn_count].name = (char *)fname;
                                 cg.functions[cg.fn_count].fn_idx = idx;
                                 cg.fn_count++;
                             }
+                        }
+
+                        /* A selective import that renames ("import f as g"): the alias
+                         * shares the SAME fn_idx, so calls through it reach the body
+                         * that compile_function fills in under the original name. */
+                        if (use_name != fname && fn_find(&cg, use_name) < 0 &&
+                            cg.fn_count < MAX_FUNCTIONS) {
+                            cg.functions[cg.fn_count].name = (char *)use_name;
+                            cg.functions[cg.fn_count].fn_idx = idx;
+                            cg.fn_count++;
                         }
 
                         /* For module imports with alias, register qualified name
